@@ -332,6 +332,8 @@ def check(pid, tier, seed, replay=None):
         hname = sub["name"]
         runs = sub[tier]
         deadline = sub.get(tier + "_deadline_s", 240 if tier == "quick" else 1500)
+        # VERIF_DEADLINE_SCALE shortens/lengthens the wall-clock budget of a batch (runs are cut, never verdicts)
+        deadline = max(10, int(deadline * float(os.environ.get("VERIF_DEADLINE_SCALE", "1"))))
         od = os.path.join(outroot, hname.replace("/", "_"))
         t0 = time.time()
         nw = sub.get("workers")
